@@ -446,6 +446,22 @@ def extract_fragment(repo, d):
             p_kw, p_open, p_close, p_end = src.resolve(spec.replace(".", "/"))
             a, b = src.item_text(p_kw, p_end)
             cuts.append((a, b))
+        # dropuse=<path prefix>[,<path prefix>]: drop the top-level `use` declarations whose path starts
+        # with the prefix (the names they import are then bound by the unit's prelude to a shim of the
+        # same name); recorded in the fragment description
+        for pref in filter(None, d.get("dropuse", "").split(",")):
+            want = [t.text for t in tokenize(pref) if t.kind not in (WS, COMMENT)]
+            hit = 0
+            for p in range(src.n()):
+                tx = src.t(p)
+                if tx.kind == IDENT and tx.text == "use" and src._is_item_position(p) and \
+                        [src.t(p + 1 + i).text for i in range(len(want)) if p + 1 + i < src.n()] == want:
+                    _, _, p_end = src.item_end(p)
+                    a, b = src.item_text(p, p_end)
+                    cuts.append((a, b))
+                    hit += 1
+            if hit == 0:
+                raise LostAnchor("%s: no `use %s...` declaration to drop" % (rel, pref))
         cuts.sort()
         pieces = []
         pos = 0
@@ -456,7 +472,7 @@ def extract_fragment(repo, d):
             pos = b
         pieces.append(text[pos:])
         body = "".join(pieces)
-        f = frag(0, len(text), "whole-file", rel + (" minus " + d["drop"] if d.get("drop") else ""),
+        f = frag(0, len(text), "whole-file", rel + (" minus " + d["drop"] if d.get("drop") else "") + (" minus `use " + d["dropuse"] + "..`" if d.get("dropuse") else ""),
                  0, body.count("\n"))
         return body, [f]
 
